@@ -205,8 +205,14 @@ func (g *qgen) subquery(src rel, depth int) rel {
 	if g.r.Chance(1, 2) {
 		where = " WHERE " + g.pred(src.cols)
 	}
-	switch g.r.Intn(7) {
-	case 0: // group by
+	kind := g.r.Intn(7)
+	for _, c := range src.cols {
+		if c.typ == "list" && g.r.Bool() {
+			kind = 1 // a list column is rare: unnest it half of the time
+		}
+	}
+	switch kind {
+	case 0, 2: // group by
 		sc := scalarCols(src.cols)
 		if len(sc) > 0 {
 			g.feat["group_by"] = true
@@ -318,7 +324,8 @@ func (g *qgen) relation(depth int) rel {
 		lc, rc := scalarCols(l.cols), scalarCols(r.cols)
 		for _, a := range lc {
 			for _, b := range rc {
-				if a.typ == b.typ && g.r.Chance(1, 3) && len(conj) < 2 {
+				// an equality between two nullable columns is the interesting one (NULL keys on both sides)
+				if a.typ == b.typ && (g.r.Chance(1, 3) || (a.null && b.null && g.r.Chance(2, 3))) && len(conj) < 2 {
 					if g.r.Bool() {
 						conj = append(conj, a.name+" = "+b.name)
 					} else {
